@@ -1202,6 +1202,21 @@ def enumFromKeys (enums : List (String × List (String × Nat))) (fr : Frame) (s
     | some t => ["From<" ++ t ++ "> for " ++ canon fr.selfTy segs]
     | none => []
   | _ => []
+/-- a FUNCTION PATH (two or more segments: `T::f`, `m::f`) as the only argument of a method call -/
+def fnPathArg : List Expr → Option (List String)
+  | [.path (a :: b :: segs)] => some (a :: b :: segs)
+  | _ => none
+
+/-- names that are not Rust identifiers, for the arguments a function path is applied to -/
+def fnPathParams : List Value → List (String × Value)
+  | [] => []
+  | [v] => [("{arg0}", v)]
+  | v :: w :: _ => [("{arg0}", v), ("{arg1}", w)]
+
+def fnPathArgs : List Value → List Expr
+  | [] => []
+  | [_] => [.path ["{arg0}"]]
+  | _ :: _ :: _ => [.path ["{arg0}"], .path ["{arg1}"]]
 -- [errors] END --------------------------------------------------------------------------------------
 
 /-- bind the arguments to the parameter patterns (ascribing the declared types) -/
@@ -1304,6 +1319,17 @@ def eval : Nat → Ctx → Frame → Expr → St → Res
         | none => .stuck "method with a closure argument: no rule"
     | .mcall recv m args =>
       (eval n ctx fr recv st).bind fun rv st =>
+        -- [errors] BEGIN: a function path where a method of `Option` / `Result` expects a closure
+        -- (`r.map_err(ClockBoundError::from)`): `T::f` stands for `|x| T::f(x)` — the plan of `closureMethod`,
+        -- with the call `T::f(args)` as the closure body.  Applies only when the receiver/method pair has a
+        -- closure plan AND the single argument is syntactically a path of two or more segments.
+        match fnPathArg args, closureMethod rv m with
+        | some segs, some (.done v) => .val v st
+        | some segs, some (.app cargs w) =>
+          ((eval n ctx fr (.call segs (fnPathArgs cargs)) { st with env := fnPathParams cargs ++ st.env }).popTo
+            st.env.length).bind fun v st => .val (wrapWith w v) st
+        | _, _ =>
+        -- [errors] END
         (evalList n ctx fr args st).bind fun av st =>
           match av with
           | .tuple vs =>
@@ -1394,6 +1420,13 @@ def eval : Nat → Ctx → Frame → Expr → St → Res
     | .ret none => .ret .unit st
     | .ret (some e) => (eval n ctx fr e st).bind fun v st => .ret v st
     | .tuple es => evalList n ctx fr es st
+    -- [errors] BEGIN: `S { .., ..Default::default() }`: the base of a struct update has the type of the
+    -- literal, so `Default::default()` there is `<S as Default>::default()`, i.e. the call `S::default()`
+    -- (`callKeys` finds `Default for S::default`)
+    | .structLit segs fields (some (.call ["Default", "default"] [])) =>
+      eval n ctx fr (.structLit segs fields
+        (some (.call [if lastSeg segs = "Self" then fr.selfTy else lastSeg segs, "default"] []))) st
+    -- [errors] END
     | .structLit segs fields rest =>
       (evalFields n ctx fr fields st).bind fun fv st =>
         match fv with
